@@ -194,13 +194,13 @@ fn c19_atoms(has_b: bool, has_u: bool) -> Vec<String> {
         "toString(a.v) STARTS WITH '1'", "toString(a.v) ENDS WITH 'x'", "toString(a.v) CONTAINS 'x'",
         "size(labels(a)) > 1", "coalesce(a.v, 0) = 0", "toInteger(a.v) = 1", "exists((a)-->())", "exists((a)<-[:R]-())",
         "a.uid + 1 > 2", "a.uid * 2 = 2", "a.uid % 2 = 0", "a.v = a.v", "a.v <> 1", "null", "true", "a.v = null",
-        "a.uid IN [a.v, 2]", "size([x IN [a.v, 1] WHERE x = 1]) = 1", "CASE WHEN a.v = 1 THEN true WHEN a.v = 2 THEN null ELSE false END",
+        "a.uid = 1", "a.uid = 2", "a.uid IN [a.v, 2]", "size([x IN [a.v, 1] WHERE x = 1]) = 1", "CASE WHEN a.v = 1 THEN true WHEN a.v = 2 THEN null ELSE false END",
     ]
     .into_iter()
     .map(String::from)
     .collect();
     if has_b {
-        for s in ["b.v = a.v", "a.v <> b.v", "a.v < b.v", "b:A", "b.v IS NOT NULL", "a.uid < b.uid", "coalesce(b.v, a.v) = 1"] {
+        for s in ["b.v = a.v", "a.v <> b.v", "a.v < b.v", "b:A", "b.v IS NOT NULL", "a.uid < b.uid", "coalesce(b.v, a.v) = 1", "b.uid = 2"] {
             v.push(s.to_string());
         }
     }
@@ -214,7 +214,7 @@ fn c19_atoms(has_b: bool, has_u: bool) -> Vec<String> {
 
 pub fn c19(tier: Tier) -> i32 {
     let rep = Report::new("C19", tier);
-    rep.rule("base queries Q = {MATCH / OPTIONAL MATCH over node, 1-hop (directed, undirected, typed, variable-length) and 2-hop patterns, optionally followed by UNWIND [1,2,null]} x predicates p = {atoms over comparisons, IN, STARTS WITH / ENDS WITH / CONTAINS, size, coalesce, toInteger, pattern existence, arithmetic, CASE, null literals; NOT atom; atom AND / OR / XOR atom over a sub-alphabet} on all graphs of the scope; for each (Q, p, graph): rows(Q WHERE p) + rows(Q WHERE NOT (p)) + rows(Q WHERE (p) IS NULL) must equal rows(Q) as multisets, both with the predicate attached to a non-optional MATCH and applied after WITH; non-trivial = triples where Q has rows and at least two of the three parts are non-empty");
+    rep.rule("base queries Q = {MATCH / OPTIONAL MATCH over node, 1-hop (directed, undirected, typed, variable-length, with inline property maps) and 2-hop patterns, optionally followed by UNWIND [1,2,null]} x predicates p = {atoms over comparisons, IN, STARTS WITH / ENDS WITH / CONTAINS, size, coalesce, toInteger, pattern existence, arithmetic, CASE, null literals; NOT atom; atom AND / OR / XOR atom over a sub-alphabet} on all graphs of the scope; for each (Q, p, graph): rows(Q WHERE p) + rows(Q WHERE NOT (p)) + rows(Q WHERE (p) IS NULL) must equal rows(Q) as multisets, both with the predicate attached to a non-optional MATCH and applied after WITH; non-trivial = triples where Q has rows and at least two of the three parts are non-empty");
     let full = tier == Tier::Thorough;
     let prefixes: Vec<(&str, bool, bool, &str)> = vec![
         // (text, has_b, has_u, returned scalars)
@@ -227,6 +227,10 @@ pub fn c19(tier: Tier) -> i32 {
         ("MATCH (a) UNWIND [1, 2, null] AS u", false, true, "a.uid AS c0, u AS c1"),
         ("MATCH (a)-[r]->(b)-[s]->(c)", true, false, "a.uid AS c0, b.uid AS c1, c.uid AS c2"),
         ("OPTIONAL MATCH (a:A)-[r:S]->(b)", true, false, "a.uid AS c0, b.uid AS c1"),
+        // inline property maps next to a WHERE on another key of the same variable
+        ("MATCH (a {v: 1})", false, false, "a.uid AS c0"),
+        ("MATCH (a {v: 1})-[r]->(b {v: 2})", true, false, "a.uid AS c0, b.uid AS c1, type(r) AS c2"),
+        ("MATCH (a)-[r:R]->(b {v: 1})", true, false, "a.uid AS c0, b.uid AS c1"),
     ];
     let vals = vec![None, Some(CV::Int(1)), Some(CV::Int(2)), Some(CV::Str("x".into()))];
     let mut graphs = if full { graphs_g2(&label_sets_full(), &vals, 2) } else { graphs_g2(&label_sets_quick(), &vals[..3].to_vec(), 1) };
